@@ -189,6 +189,18 @@ def gen_case(seed, tier):
                 known[0].append(nm)
                 pow_terms += [('get', 0, nm), as_term(e)]
         pow_terms += [('get', 0, 'pc'), ('get', 0, 'half')]
+    # stratum: factors whose decimal expansion never ends (1/60, 1/7, 1/3, 1/1.1 ...): full double precision in both directions
+    if rng.random() < 0.45:
+        for nm, e, b in rng.sample([('xm', ('mul', ('ref', 'second'), ('num', '60')), 'second'),
+                                    ('xs7', ('mul', ('ref', 'metre'), ('num', '7')), 'metre'),
+                                    ('xt3', ('div', ('ref', 'dimensionless'), ('num', '3')), 'dimensionless'),
+                                    ('xh', ('mul', ('ref', 'second'), ('num', '3600')), 'second'),
+                                    ('x11', ('mul', ('ref', 'volt'), ('num', '1.1')), 'volt'),
+                                    ('x96', ('mul', ('ref', 'mole'), ('num', '96')), 'mole')], 2):
+            if nm not in known[0]:
+                ops.append(['add', 0, nm, e])
+                known[0].append(nm)
+                pow_terms += [('get', 0, nm), ('get', 0, b)]
     # stratum: several units of ONE dimension with extreme scales (tolerances must be relative, never absolute)
     if rng.random() < 0.5:
         basedim = rng.choice(['ampere', 'second', 'metre', 'volt', 'mole'])
